@@ -8,7 +8,7 @@ git -C /repo worktree add -q $wt HEAD || exit 2
 meta=$src/meta.json
 demo=$(python3 -c "import json;print(json.load(open('$meta'))['demo_file'])")
 place=$(python3 -c "import json;print(json.load(open('$meta'))['demo_place'])")
-cmd=$(python3 -c "import json,re;print(re.sub(r'/tmp/wt[2345]?-C[0-9]+','.',json.load(open('$meta'))['demo_cmd']))")
+cmd=$(python3 -c "import json,re;print(re.sub(r'/tmp/wt[23456]?-C[0-9]+','.',json.load(open('$meta'))['demo_cmd']))")
 cleanup() { tag=$(echo "$wt" | md5sum | cut -c1-8); rm -rf /verif/.work/alt-$tag; git -C /repo worktree remove --force $wt; }
 trap cleanup EXIT
 cd $wt
